@@ -850,7 +850,7 @@ def work(rep, args):
         if res["loop_exceptions"] or res["log_errors"]:
             rep.add_drift("event-loop exception / error log while serving a %s: %s" % (it["src"], res["log_errors"][:1]))
     # vacuity: the replayed material must actually exercise every rule
-    for k in (
+    per_source = (
         "expect_exact",
         "expect_prefix",
         "expect_none",
@@ -858,16 +858,20 @@ def work(rep, args):
         "filters_selecting_proper_subset",
         "mutations",
         "requests_asked_before_whose_answer_the_last_mutation_changed",
-        "reasked_prefix_route_changed_by_last_mutation",
         "expect_none_not_GET",
         "requests_CON",
         "named_authority_through_nested_site",
         "expect_bare_resource",
         "listings_with_attributeless_link",
-    ):
+        "filters_single_valued_with_space",
+    )
+    for k in per_source:
         for src in ("model-behaviour", "random-history"):
             if not stats.get("%s.%s" % (src, k)):
                 raise MachineryError("vacuous run: no %s among the %s cases" % (k, src))
+    for k in ("reasked_prefix_route_changed_by_last_mutation",):
+        if not stats.get("total." + k):
+            raise MachineryError("vacuous run: no %s" % k)
     report_violations(rep, viols)
     per_clause = {c: 0 for c in CLAUSES}
     for v in viols:
@@ -898,9 +902,9 @@ def work(rep, args):
         }
     )
     rep.assumptions += [
-        "virtual-time event loop and fake UDP socket stand in for the OS (harness/vloop.py, fakenet.py); requests are NON GETs built by the independent codec harness/wire.py",
-        "test resources (harness/sitedrive.py) report their id, the Uri-Path they were given and get_request_uri(); PathCapable leaves stand for nested sites whose received remainder is to be observed and describe no links",
-        "domain: no nested site at the empty path, acyclic nesting, remove only where exactly one of resource / nested site is registered at the path, /.well-known/core of the root never replaced, one filter per query, filter values without space, no value-less attributes",
+        "virtual-time event loop and fake UDP socket stand in for the OS (harness/vloop.py, fakenet.py); requests (GET / POST / PUT / DELETE / FETCH, CON and NON, optionally with Uri-Host / Uri-Port) are built by the independent codec harness/wire.py",
+        "test resources (harness/sitedrive.py) answer every method with 2.05 and report their id, the Uri-Path they were given and get_request_uri(); PathCapable leaves stand for nested sites whose received remainder is to be observed and describe no links; one resource per world implements interfaces.Resource only (no get_link_description: listed without attributes); some nested sites are registered through a PathCapable wrapper that is no Site (for routing and listing it is the site)",
+        "domain: no nested site at the empty path, acyclic nesting, remove only where exactly one of resource / nested site is registered at the path, /.well-known/core of the root never replaced, one filter per query, rt/if/ct filter values without space, no value-less attributes; the authority of the reconstructed URI is compared only where the request named it (Uri-Host / Uri-Port)",
         "links are compared as sets of (href, set of attribute pairs); the impl-info link is dropped",
         "exhaustive model check bounds: %s; larger trees by simulation and by TLC-evaluated random histories" % mc_consts,
     ]
